@@ -322,7 +322,21 @@ func visitInstr(fr *frame, instr ssa.Instruction) continuation {
 		if p == nil {
 			panic(runtimePanic{"invalid memory address or nil pointer dereference"})
 		}
-		st := (*p).(structure)
+		st, isStruct := (*p).(structure)
+		if !isStruct {
+			if isByteCell(*p) {
+				// a struct view over bytes ((*T)(unsafe.Pointer(&b[0]))): the field lives at its byte offset
+				stT := instr.X.Type().Underlying().(*types.Pointer).Elem().Underlying().(*types.Struct)
+				fields := make([]*types.Var, stT.NumFields())
+				for k := range fields {
+					fields[k] = stT.Field(k)
+				}
+				offs := i.sizes.Offsetsof(fields)
+				fr.env[instr] = cellAt(p, int(offs[instr.Field]))
+				break
+			}
+			unsupported("field address of a non-struct cell (%T) at %s", *p, i.prog.Fset.Position(instr.Pos()))
+		}
 		fp := &st[instr.Field]
 		i.origin[fp] = []value(st)
 		fr.env[instr] = fp
@@ -751,6 +765,28 @@ func cellAt(p *value, k int) *value {
 // storeBytes handles a store of a wide integer through a pointer that really
 // designates byte cells (reinterpreted via unsafe.Pointer): little-endian split.
 func (i *interpreter) storeBytes(T types.Type, addr *value, v value) bool {
+	if stT, ok := T.Underlying().(*types.Struct); ok && isByteCell(*addr) {
+		// a struct stored through a view over bytes: field by field at its byte offset
+		fields := make([]*types.Var, stT.NumFields())
+		for k := range fields {
+			fields[k] = stT.Field(k)
+		}
+		offs := i.sizes.Offsetsof(fields)
+		sv := v.(structure)
+		for k, f := range fields {
+			c := cellAt(addr, int(offs[k]))
+			if kk, ok := basicKind(f.Type()); ok {
+				if w, _, isInt := kindInfo(kk); isInt && w == 8 {
+					*c = sv[k]
+					continue
+				}
+			}
+			if !i.storeBytes(f.Type(), c, sv[k]) {
+				unsupported("struct store over byte cells: field %s of %s", f.Name(), T)
+			}
+		}
+		return true
+	}
 	k, ok := basicKind(T)
 	if !ok {
 		return false
@@ -772,6 +808,29 @@ func (i *interpreter) storeBytes(T types.Type, addr *value, v value) bool {
 
 // loadBytes is the inverse of storeBytes.
 func (i *interpreter) loadBytes(T types.Type, addr *value) (value, bool) {
+	if stT, ok := T.Underlying().(*types.Struct); ok && isByteCell(*addr) {
+		fields := make([]*types.Var, stT.NumFields())
+		for k := range fields {
+			fields[k] = stT.Field(k)
+		}
+		offs := i.sizes.Offsetsof(fields)
+		out := make(structure, len(fields))
+		for k, f := range fields {
+			c := cellAt(addr, int(offs[k]))
+			if kk, ok := basicKind(f.Type()); ok {
+				if w, _, isInt := kindInfo(kk); isInt && w == 8 {
+					out[k] = *c
+					continue
+				}
+			}
+			fv, ok := i.loadBytes(f.Type(), c)
+			if !ok {
+				unsupported("struct load over byte cells: field %s of %s", f.Name(), T)
+			}
+			out[k] = fv
+		}
+		return out, true
+	}
 	k, ok := basicKind(T)
 	if !ok {
 		return nil, false
